@@ -204,9 +204,9 @@ def c_obs(o):
 
 
 # ---------------------------------------------------------------- part A: value sets -----
-def part_valuesets(ctx, ct):
+def part_valuesets(ctx, ct, jobs):
     rng = ctx.rng
-    n = ctx.pick(700, 8000)
+    n = ctx.pick(450, 8000)
     cases, exprs, steps = [], [], []
     corpus = load_corpus("expr")
     for i in range(n):
@@ -240,18 +240,17 @@ def part_valuesets(ctx, ct):
             ctx.violation("ValueSet.iter_values:not-the-members", {"kind": "expr", "expr": e, "query": None},
                           "iter_values() lists %r, members are %r" % (o[2], sorted(den)))
     ctx.sample({"valueset_expr": exprs[len(corpus)] if len(exprs) > len(corpus) else exprs[0]})
-    bad = ctx.coq_check_cases("vs_expr", ["Model.ValueSet", "Model.ConstraintTable", "Corr.C17"], "check_expr", cases, shard=250)
-    for i in (bad or [])[:5]:
+    def bad_expr(i):
         ctx.obligation("corr:ValueSet state/contains/iter_values agree with model", False, "corr-shard", "expr = %r" % (exprs[i],))
         save_corpus("expr", exprs[i])
+    jobs.append(("vs_expr", "check_expr", cases, 150, bad_expr))
     scases = ["(%s, %s, %s)" % (c_vset(a), op, c_vset(r)) for (a, op, r) in steps]
     ctx.count(len(scases), bucket="valueset:single-step-from-actual-state")
-    bad = ctx.coq_check_cases("vs_step", ["Model.ValueSet", "Model.ConstraintTable", "Corr.C17"], "check_step", scases, shard=400)
-    for i in (bad or [])[:5]:
-        ctx.obligation("corr:single add/union step from the actual state agrees with model", False, "corr-shard", scases[i])
+    jobs.append(("vs_step", "check_step", scases, 150, lambda i: ctx.obligation(
+        "corr:single add/union step from the actual state agrees with model", False, "corr-shard", scases[i])))
 
     # ---- is_disjoint on pairs
-    m = ctx.pick(500, 6000)
+    m = ctx.pick(300, 6000)
     dcases, dmeta = [], []
     inverted_wrong = 0
     for i in range(m):
@@ -279,9 +278,8 @@ def part_valuesets(ctx, ct):
     if inverted_wrong:
         ctx.note("is_disjoint answered wrongly on %d generated pairs involving an inverted range (lo > hi); such ranges are outside "
                  "the property, the model reproduces the behaviour (theorem C17_disjoint_inverted_refuted)" % inverted_wrong)
-    bad = ctx.coq_check_cases("vs_disjoint", ["Model.ValueSet", "Model.ConstraintTable", "Corr.C17"], "check_disjoint", dcases, shard=300)
-    for i in (bad or [])[:5]:
-        ctx.obligation("corr:is_disjoint agrees with model", False, "corr-shard", "a, b = %r" % (dmeta[i],))
+    jobs.append(("vs_disjoint", "check_disjoint", dcases, 120, lambda i: ctx.obligation(
+        "corr:is_disjoint agrees with model", False, "corr-shard", "a, b = %r" % (dmeta[i],))))
 
 
 # ---------------------------------------------------------------- part B: tables ---------
@@ -348,9 +346,9 @@ def run_level_check(ct, asr, VNA, T, kvs):
         asr.LEVEL_CONSTRAINTS = saved
 
 
-def part_tables(ctx, ct, asr, VNA):
+def part_tables(ctx, ct, asr, VNA, jobs):
     rng = ctx.rng
-    n = ctx.pick(500, 6000)
+    n = ctx.pick(300, 6000)
     tcases, lcases, tmeta, lmeta = [], [], [], []
     repeated_stricter = 0
     corpus = load_corpus("table")
@@ -448,14 +446,15 @@ def part_tables(ctx, ct, asr, VNA):
                  "combination (the old and the new value must be allowed by one and the same column: theorem C17_level_step_iff, witness "
                  "C17_incremental_repeated_key_refuted); the property speaks of sequences of distinct keys, so this is recorded, not alarmed on" % repeated_stricter)
     ctx.sample({"table": [list(c.items()) for c in tmeta[-1][0]], "values": list(tmeta[-1][1].items()), "key": tmeta[-1][2]})
-    bad = ctx.coq_check_cases("tables", ["Model.ValueSet", "Model.ConstraintTable", "Corr.C17"], "check_table", tcases, shard=150)
-    for i in (bad or [])[:5]:
+    def bad_table(i):
         ctx.obligation("corr:filter/is_allowed/allowed_values_for agree with model", False, "corr-shard", repr(tmeta[i]))
         save_corpus("table", [[list(c.items()) for c in tmeta[i][0]], list(tmeta[i][1].items()), tmeta[i][2], []])
-    bad = ctx.coq_check_cases("level", ["Model.ValueSet", "Model.ConstraintTable", "Corr.C17"], "check_level", lcases, shard=150)
-    for i in (bad or [])[:5]:
+
+    def bad_level(i):
         ctx.obligation("corr:assert_level_constraint sequence agrees with model", False, "corr-shard", repr(lmeta[i]))
         save_corpus("table", [[list(c.items()) for c in lmeta[i][0]], [], 0, lmeta[i][1]])
+    jobs.append(("tables", "check_table", tcases, 100, bad_table))
+    jobs.append(("level", "check_level", lcases, 100, bad_level))
 
 
 def tuple_expr(b):
@@ -642,9 +641,9 @@ def check_csv_case(ctx, ct, rows, names, table, inp, universe):
                     return
 
 
-def part_csv(ctx, ct):
+def part_csv(ctx, ct, jobs):
     rng = ctx.rng
-    n = ctx.pick(250, 3000)
+    n = ctx.pick(150, 3000)
     cases, meta = [], []
     path = os.path.join(ctx.workdir, "table.csv")
     corpus = load_corpus("csv")
@@ -681,11 +680,11 @@ def part_csv(ctx, ct):
         big = sorted(set(x for _, cs in rows for c in cs if c[0] == "items" for it in c[1] if it[0] != "bool" for y in it[1:] for x in (y - 1, y, y + 1)) | set(U))
         # ranges in the shipped tables can be huge: membership only (no enumeration) -> restrict dens to `big`
         check_csv_real(ctx, ct, rows, names, table, rel, big)
-    bad = ctx.coq_check_cases("csv", ["Model.ValueSet", "Model.ConstraintTable", "Corr.C17"], "check_csv", cases, shard=60)
-    for i in (bad or [])[:5]:
+    def bad_csv(i):
         ctx.obligation("corr:read_constraints_from_csv agrees with model", False, "corr-shard", repr(meta[i])[:2000])
         if not isinstance(meta[i], str):
             save_corpus("csv", meta[i])
+    jobs.append(("csv", "check_csv", cases, 60, bad_csv))
 
 
 def check_csv_real(ctx, ct, rows, names, table, rel, universe):
@@ -756,6 +755,31 @@ def save_corpus(kind, obj):
         f.write(line + "\n")
 
 
+# ---------------------------------------------------------------- recorded witnesses ------
+def part_witnesses(ctx, ct, asr, VNA):
+    """The `_refuted` / `needs_` witnesses of Props/C17.v, run on the real code: the model's
+    account of behaviour OUTSIDE the property must be what the code does (else: mismatch)."""
+    VS, AV = ct.ValueSet, ct.AnyValue
+    a, b = VS((5, 3)), VS(5)
+    got = (any(q in a for q in U), a.is_disjoint(b), b.is_disjoint(a), a.is_disjoint(AV()))
+    ctx.obligation("corr:witness C17_disjoint_inverted_refuted on the real code", got == (False, False, False, False), "corr-shard", repr(got))
+    ctx.note("inverted range (outside the property): ValueSet((5, 3)) holds no value, but is_disjoint(ValueSet(5)) = %r, is_disjoint(AnyValue()) = %r "
+             "(end points are inspected); containment/union semantics are unaffected by inverted ranges (C17_vs_sem needs no lo <= hi), "
+             "the internal _ranges set then depends on set iteration order" % (got[1], got[3]))
+    T = [{0: VS(1), 1: VS(5)}, {0: VS(2), 1: VS(5)}]
+    kvs = [(0, 1), (1, 5), (0, 2)]
+    final, n = run_level_check(ct, asr, VNA, T, kvs)
+    pre = [ct.is_allowed_combination(T, OrderedDict(kvs[:j])) for j in range(1, 4)]
+    ctx.obligation("corr:witness C17_incremental_repeated_key_refuted on the real code", final is None and n == 2 and all(pre), "corr-shard", repr((final, n, pre)))
+    T2 = [{}, {0: VS(1)}]
+    got2 = (5 in ct.allowed_values_for(T2, 0, {}), ct.is_allowed_combination(T2, {0: 5}))
+    ctx.obligation("corr:witness C17_allowed_iff_needs_no_catch_all on the real code", got2 == (False, True), "corr-shard", repr(got2))
+    T3 = [{0: VS(1)}, {0: VS(2)}]
+    got3 = (2 in ct.allowed_values_for(T3, 0, {0: 1}), ct.is_allowed_combination(T3, {0: 2}))
+    ctx.obligation("corr:witness C17_allowed_iff_needs_fresh_key on the real code", got3 == (False, True), "corr-shard", repr(got3))
+    ctx.count(4, bucket="witness")
+
+
 # ---------------------------------------------------------------- entry points ------------
 def run(ctx):
     ct, asr, VNA = impl()
@@ -767,9 +791,19 @@ def run(ctx):
         "sequences with distinct and repeated keys. C: random abstract CSV tables printed to text (ditto marks, any, ranges, bools, blank/"
         "comment rows, short rows, repeated keys) + the CSVs shipped in the repository. Oracle: brute-force sets over the universe. "
         "Non-trivial: a set with members / a filter keeping some but not all columns / a non-empty sequence / a CSV with cells." % (N, U[0], U[-1]))
-    part_valuesets(ctx, ct)
-    part_tables(ctx, ct, asr, VNA)
-    part_csv(ctx, ct)
+    jobs = []
+    part_valuesets(ctx, ct, jobs)
+    part_tables(ctx, ct, asr, VNA, jobs)
+    part_witnesses(ctx, ct, asr, VNA)
+    part_csv(ctx, ct, jobs)
+    # all correspondence shards of all parts are evaluated by Coq concurrently
+    import concurrent.futures
+    imports = ["Model.ValueSet", "Model.ConstraintTable", "Corr.C17"]
+    with concurrent.futures.ThreadPoolExecutor(max_workers=len(jobs)) as ex:
+        futs = [(j, ex.submit(ctx.coq_check_cases, j[0], imports, j[1], j[2], None, j[3])) for j in jobs]
+        for j, f in futs:
+            for i in (f.result() or [])[:5]:
+                j[4](i)
     ctx.trusted.append("C17: values are Python ints/bools (bool modelled as its integer: True == 1 and hash(True) == hash(1)); keys are compared by equality only "
                        "(the harness numbers key strings); Python set iteration order is arbitrary and the theorems hold for every order")
     ctx.trusted.append("C17: CSV text tokenisation (csv.reader, strip/lower, int(), partition('-'), is_ditto, blank/'#' row skipping) is outside the model; "
